@@ -84,7 +84,7 @@ class PyFatFS(FS):
         try:
             self.fs.root_dir.get_entry(path)
         except PyFATException as e:
-            if e.errno == errno.ENOENT:
+            if e.errno in [errno.ENOTDIR, errno.ENOENT]:
                 return False
             raise e
 
@@ -141,7 +141,7 @@ class PyFatFS(FS):
         try:
             entry = self.fs.root_dir.get_entry(path)
         except PyFATException as e:
-            if e.errno == errno.ENOENT:
+            if e.errno in [errno.ENOTDIR, errno.ENOENT]:
                 raise ResourceNotFound(path)
             raise e
         return entry.filesize
@@ -485,7 +485,7 @@ class PyFatFS(FS):
         try:
             dir_entry = self.fs.root_dir.get_entry(_path)
         except PyFATException as e:
-            if e.errno == errno.ENOENT:
+            if e.errno in [errno.ENOTDIR, errno.ENOENT]:
                 raise ResourceNotFound(path)
             raise e
 
